@@ -1,4 +1,6 @@
 import FxVerif.Proofs.C06
+import FxVerif.Proofs.C05Ext
+import FxVerif.Proofs.C05Prompt
 /-!
 # C06 — outgoing value is released only once the external chain can no longer run it
 
@@ -84,7 +86,8 @@ theorem observe_releases_by_rule (s : State) (h : Nat) :
     have := batch_release_rule h b
     by_cases hlt : b.timeout < h <;> simp_all
   have e : batchExpired h = fun b => decide (b.timeout < h) := funext hb
-  simp only [doObserve, handleEvent]
+  rw [doObserve_eq]
+  simp only [doObserveStd, handleEvent]
   have hp := congrArg Slice.pool hk
   have hbt := congrArg Slice.batches hk
   have hcl := congrArg Slice.calls hk
@@ -145,6 +148,18 @@ theorem created_timeouts_positive (s s' : State) (n : Nat) :
     all_goals first
       | (cases h; exact ⟨_, rfl, by simp only; omega, hobs s.params.callTimeout (by omega)⟩)
       | cases h
+
+/-- `no_batch_before_observation`, over histories: every batch and every outgoing bridge call ever created, along every
+operation list from every initial state (where no external height has been observed yet), carries a positive timeout —
+it was created after the first observation, with a timeout computed from an observed external height -/
+theorem created_after_observation (s0 : State) (h0 : IsInit s0) (ops : List Op) :
+    (∀ b ∈ (runExt s0 {} ops).2.created, 0 < b.timeout) ∧ (∀ c ∈ (runExt s0 {} ops).2.createdCalls, 0 < c.timeout) ∧
+    (∀ b ∈ (run s0 ops).batches, 0 < b.timeout) ∧ (∀ c ∈ (run s0 ops).calls, 0 < c.timeout) := by
+  have ht0 : T {} := ⟨fun b hb => (by cases hb), fun c hc => (by cases hc)⟩
+  have ht := T_run (s := s0) ht0 ops
+  have hn := N_run (N_init h0) ops
+  rw [runExt_fst] at hn
+  exact ⟨ht.batches, ht.calls, fun b hb => ht.batches b (hn.sub b hb), fun c hc => ht.calls c (hn.csub c hc)⟩
 
 /-- `refund_excludes_execution`, batches.  A batch cancelled for time-out at the observation of an event at external
 height `h` (`timeout < h`, the generated Go rule) cannot be submitted at any block `h' ≥ h`: the contract's generated rule
@@ -208,6 +223,74 @@ theorem superseded_excludes_execution (b b' : Batch) (last : Nat)
   refine ⟨?_, hcancel.2⟩
   simp [h3, Cmp.eval]; omega
 
+/-- `released_only_by_observation` (every state, every operation): a batch leaves fxcore's store only at the observation
+of an external event whose height is above its timeout, or that executes a batch of the same token with the same or a
+higher nonce; an outgoing bridge call leaves only at the observation of an event whose height has reached its timeout,
+or when an observed result for it is applied.  No user message, no block (`EndBlocker` calls no clean-up: regenerated),
+no parameter change releases anything — never fxcore's own clock or a projected height. -/
+theorem released_only_by_observation (s : State) (op : Op) :
+    (∀ b ∈ s.batches, b ∉ (step s op).1.batches →
+      ∃ h ev, op = .observe h ev ∧ (b.timeout < h ∨ ∃ t n, ev = .batch t n ∧ b.token = t ∧ b.nonce ≤ n)) ∧
+    (∀ c ∈ s.calls, c ∉ (step s op).1.calls →
+      (∃ h ev, op = .observe h ev ∧ c.timeout ≤ h) ∨ (∃ n ok, op = .exec n ∧ (n, c.nonce, ok) ∈ s.pending)) :=
+  FxVerif.Proofs.C05.released_only_by_observation s op
+
+/-- `released_means_no_longer_executable` — the property over whole histories.  Environment: every observed event is one
+the bridge contract can have produced (`AdmissibleRun`: heights non-decreasing in event order, the Solidity `require`s
+as read from FxBridgeLogic.sol).  Then after every such operation list, from every initial state: a batch fxcore ever
+created and no longer holds (executed, superseded, or cancelled for time-out — its transfers are refundable again) can
+not be executed by any further admissible event, at any height; an outgoing bridge call fxcore no longer holds (refunded
+for time-out, or settled by its result) can not be run by any further admissible event.  So the same funds are never
+released on fxcore and afterwards executed on the external chain. -/
+theorem released_means_no_longer_executable (s0 : State) (h0 : IsInit s0) (ops : List Op) (ha : AdmissibleRun s0 {} ops) :
+    let s := run s0 ops
+    let x := (runExt s0 {} ops).2
+    (∀ b ∈ x.created, b ∉ s.batches → ∀ h, ¬ admissible x (.observe h (.batch b.token b.nonce))) ∧
+    (∀ c ∈ x.createdCalls, c ∉ s.calls → ∀ h ok, ¬ admissible x (.observe h (.result c.nonce ok))) := by
+  have hj := J_run (J_init h0) ops ha
+  rw [runExt_fst] at hj
+  have hs1 : solBatchNonceCmp = .lt := by decide
+  have hs2 : solBatchTimeoutCmp = .lt := by decide
+  have hs3 : solCallTimeoutCmp = .lt := by decide
+  have hs4 : solCallNonceOnce = true := by decide
+  simp only
+  constructor
+  · intro b hb hnot h hadm
+    obtain ⟨hh, b', hb', ht, hn, hnonce, htime⟩ := hadm
+    have hnd : (((runExt s0 {} ops).2.created).map (·.nonce)).Nodup := by rw [hj.nonces]; exact nodup_range'
+    have heq : b' = b := nodup_map_inj (fun b : Batch => b.nonce) _ hnd b' hb' b hb hn
+    subst heq
+    simp only [hs1, hs2, Cmp.eval, decide_eq_true_eq] at hnonce htime
+    exact hnot (hj.batches b' hb' hnonce (by omega))
+  · intro c hc hnot h ok hadm
+    obtain ⟨hh, c', hc', hn, hdone, htime⟩ := hadm
+    have hnd : (((runExt s0 {} ops).2.createdCalls).map (·.nonce)).Nodup := by rw [hj.cnonces]; exact nodup_range'
+    have heq : c' = c := nodup_map_inj (fun c : Call => c.nonce) _ hnd c' hc' c hc hn
+    subst heq
+    simp only [hs3, Cmp.eval, decide_eq_true_eq] at htime
+    exact hnot (hj.calls c' hc' (hdone hs4) (by omega))
+
+/-- the converse reading: an admissible event always finds the record it is about — the batch execution is applied
+without panic, the bridge-call result finds its outgoing bridge call still stored -/
+theorem admissible_event_finds_record (s0 : State) (h0 : IsInit s0) (ops : List Op) (h : Nat) (ev : Ev)
+    (ha : AdmissibleRun s0 {} (ops ++ [.observe h ev])) :
+    (doObserve (run s0 ops) h ev).2 ≠ .panic ∧
+    (∀ t n, ev = .batch t n → ∃ b ∈ (run s0 ops).batches, b.token = t ∧ b.nonce = n) ∧
+    (∀ c ok, ev = .result c ok → ∃ cl ∈ (run s0 ops).calls, cl.nonce = c) := by
+  obtain ⟨ha1, ha2⟩ := admissibleRun_append ha
+  have hj := J_run (J_init h0) ops ha1
+  rw [runExt_fst] at hj
+  have hs3 : solCallTimeoutCmp = .lt := by decide
+  have hs4 : solCallNonceOnce = true := by decide
+  refine ⟨(J_observe hj h ev ha2.1).2, fun t n he => ?_, fun c ok he => ?_⟩
+  · subst he
+    obtain ⟨b, _, hb, ht, hn⟩ := admissible_batch_found hj ha2.1
+    exact ⟨b, hb, ht, hn⟩
+  · subst he
+    obtain ⟨hh, cl, hcl, hn, hdone, htime⟩ := ha2.1
+    simp only [hs3, Cmp.eval, decide_eq_true_eq] at htime
+    exact ⟨cl, hj.calls cl hcl (by rw [hn]; exact hdone hs4) (by omega), hn⟩
+
 /-- KNOWN DEFECT (see `fixes/C05-pending-result-refund.md`): the full-strength statement "a bridge call whose successful
 execution has been observed is never refunded" is FALSE of the code.  The result claim is only *stored* at observation
 (`SavePendingExecuteClaim`); until someone calls `ExecuteClaim`, the record stays and the next observed event whose height
@@ -229,6 +312,7 @@ theorem executed_never_refunded_call_partial (s : State) (h : Nat) (ev : Ev)
     (hrule : ∀ n ok, ev = .result n ok → ∀ c ∈ s.calls, c.nonce = n → solCallTimeoutCmp.eval h c.timeout = true)
     (hnopanic : (doObserve s h ev).2 ≠ .panic) :
     ∀ c ∈ expiredCalls h s.calls, c.nonce ∉ (doObserve s h ev).1.obsSuccess := by
+  rw [doObserve_eq] at hnopanic ⊢
   have e1 : batchCleanupSrc = .observedExternal := by decide
   have e2 : callCleanupSrc = .observedExternal := by decide
   have hsol : solCallTimeoutCmp = .lt := by decide
@@ -245,9 +329,9 @@ theorem executed_never_refunded_call_partial (s : State) (h : Nat) (ev : Ev)
     rw [(call_release_rule h s.calls).1] at hc
     simpa using mem_takeWhile_true _ _ _ hc
   cases ev with
-  | other => simp only [doObserve, handleEvent, hobs]; exact happlied c hmem
+  | other => simp only [doObserveStd, handleEvent, hobs]; exact happlied c hmem
   | result n ok =>
-    simp only [doObserve, handleEvent, hobs]
+    simp only [doObserveStd, handleEvent, hobs]
     cases ok with
     | false => simpa using happlied c hmem
     | true =>
@@ -257,12 +341,39 @@ theorem executed_never_refunded_call_partial (s : State) (h : Nat) (ev : Ev)
       simp [hsol, Cmp.eval] at this
       omega
   | batch t n =>
-    simp only [doObserve, handleEvent] at hnopanic ⊢
+    simp only [doObserveStd, handleEvent] at hnopanic ⊢
     cases hf : s.batches.find? (fun b => decide (b.token = t ∧ b.nonce = n)) with
     | none => rw [hf] at hnopanic; exact absurd rfl hnopanic
     | some b =>
       simp only [hf, hobs]
       simpa [executeBatch, cancelBatches] using happlied c hmem
+
+/-- `executed_never_refunded` for bridge calls over whole histories, partial: along every admissible operation list
+(`AdmissibleRun`: the bridge contract's rules, heights non-decreasing) in which — this is what the code does not
+enforce, see the known finding — every observed bridge-call result has been applied by `ExecuteClaim` before the next
+event is observed (`PromptRun`: no result is pending at an observation), no outgoing bridge call is ever both observed as
+successfully executed on the external chain and refunded on fxcore.  `executed_call_refunded_witness` shows the
+hypothesis cannot be dropped. -/
+theorem executed_never_refunded_call_run_partial (s0 : State) (h0 : IsInit s0) (ops : List Op)
+    (ha : AdmissibleRun s0 {} ops) (hp : PromptRun s0 ops) :
+    ∀ e ∈ (run s0 ops).settled, e.isCall = true → e.how = .refunded → e.id ∉ (run s0 ops).obsSuccess := by
+  have hk := K_run (K_init h0) (J_init h0) (inv_init h0) ops ha hp
+  rw [runExt_fst] at hk
+  exact hk.k1
+
+/-- non-vacuity of `PromptRun` together with `AdmissibleRun`: a bridge call is created, its successful result observed
+and applied, a later event passes the timeout -/
+example : AdmissibleRun (init 1 [((0, 0), 100)] {}) {}
+      [.observe 1000 .other, .bridgeCall 0 7 "0x0000000000000000000000000000000000000001" "ab" "" [(0, 70)],
+       .observe 41319 (.result 1 true), .exec 2, .observe 41320 .other] ∧
+    PromptRun (init 1 [((0, 0), 100)] {})
+      [.observe 1000 .other, .bridgeCall 0 7 "0x0000000000000000000000000000000000000001" "ab" "" [(0, 70)],
+       .observe 41319 (.result 1 true), .exec 2, .observe 41320 .other] := by
+  constructor
+  · simp only [AdmissibleRun, admissible]
+    decide
+  · simp only [PromptRun]
+    decide
 
 /-- non-vacuity: a batch and a bridge call exist, an observation at the batch timeout keeps the batch, one block later
 cancels it -/
